@@ -42,6 +42,9 @@ pub enum Op {
     /// the receipt for locator l was signed by another key
     Misbehaved { t: u8, l: u8 },
     Abandon { t: u8 },
+    /// a retrier's request was in flight when the tower was abandoned; the reply (acceptance or rejection) is
+    /// handled afterwards exactly as the retrier does, against a tower the client no longer knows
+    LateReply { t: u8, l: u8, accepted: bool },
 }
 
 #[derive(Debug, Clone, Serialize, Deserialize)]
@@ -268,6 +271,23 @@ pub fn run_one(case: &Case, tag: &str) -> CaseReport {
                 }
                 _ => did = false,
             },
+            Op::LateReply { t, l, accepted } => {
+                if model.contains_key(&t) {
+                    did = false;
+                } else {
+                    let a = appointment(l);
+                    if accepted {
+                        let user_sig = teos_common::cryptography::sign(&a.to_vec(), &client.user_sk);
+                        let mut r = AppointmentReceipt::new(user_sig, 800 + l as u32);
+                        r.sign(&user_sk(20 + t));
+                        client.add_appointment_receipt(tower_id(t), locator(l), 50, &r);
+                    } else {
+                        client.add_invalid_appointment(tower_id(t), &a);
+                    }
+                    client.remove_pending_appointment(tower_id(t), locator(l));
+                    classes.insert("late-reply-of-abandoned-tower");
+                }
+            }
             Op::Abandon { t } => {
                 if model.contains_key(&t) {
                     if let Err(e) = client.remove_tower(tower_id(t)) {
@@ -369,7 +389,7 @@ pub fn run_one(case: &Case, tag: &str) -> CaseReport {
         classes.insert("body-shared-by-several-towers");
     }
     rep.classes = classes.iter().map(|s| s.to_string()).collect();
-    rep.nontrivial = applied >= 2 && (classes.contains("abandon") || classes.contains("pending->accepted") || classes.contains("pending->invalid") || classes.contains("misbehaviour"));
+    rep.nontrivial = applied >= 2 && (classes.contains("abandon") || classes.contains("late-reply-of-abandoned-tower") || classes.contains("pending->accepted") || classes.contains("pending->invalid") || classes.contains("misbehaviour"));
     rep.key = format!("{:?}", case.ops);
     rep.counters = vec![("ops_applied".into(), applied as u64), ("ops_skipped_precondition".into(), skipped as u64)];
     rep.sample = Some(json!({"towers": case.towers, "locators": case.locators, "ops": case.ops.iter().map(|o| format!("{o:?}")).collect::<Vec<_>>()}));
@@ -495,6 +515,7 @@ impl Campaign for C18 {
                     2 => (0..towers, 0..locators).prop_map(|(t, l)| Op::PendingToInvalid { t, l }),
                     1 => (0..towers, 0..locators).prop_map(|(t, l)| Op::Misbehaved { t, l }),
                     2 => (0..towers).prop_map(|t| Op::Abandon { t }),
+                    1 => (0..towers, 0..locators, any::<bool>()).prop_map(|(t, l, accepted)| Op::LateReply { t, l, accepted }),
                 ];
                 proptest::collection::vec(op, 1..25).prop_map(move |mut ops| {
                     ops.insert(0, Op::Register { t: 0 });
@@ -534,12 +555,28 @@ pub fn run(ctx: &Ctx) -> i32 {
     }
     let alphabet = small_scope_ops();
     let len = if ctx.thorough() { 4 } else { 3 };
-    let total = (alphabet.len() as u64).pow(len);
+    let plain = (alphabet.len() as u64).pow(len);
+    // second family: any two operations, then abandon t, then the late reply (accepted / rejected) of a request that was
+    // in flight for (t, l) - the order in which a retrier's completion and abandontower can really interleave
+    let late = (alphabet.len() as u64).pow(len - 1) * 8;
+    let total = plain + late;
     let mut stats = runner::run_indexed(ctx, total, &|mut i| {
         let mut ops = vec![Op::Register { t: 0 }, Op::Register { t: 1 }];
-        for _ in 0..len {
-            ops.push(alphabet[(i % alphabet.len() as u64) as usize]);
-            i /= alphabet.len() as u64;
+        if i < plain {
+            for _ in 0..len {
+                ops.push(alphabet[(i % alphabet.len() as u64) as usize]);
+                i /= alphabet.len() as u64;
+            }
+        } else {
+            i -= plain;
+            let (t, l, accepted) = ((i & 1) as u8, ((i >> 1) & 1) as u8, (i >> 2) & 1 == 1);
+            i >>= 3;
+            for _ in 0..len - 1 {
+                ops.push(alphabet[(i % alphabet.len() as u64) as usize]);
+                i /= alphabet.len() as u64;
+            }
+            ops.push(Op::Abandon { t });
+            ops.push(Op::LateReply { t, l, accepted });
         }
         let case = Case { towers: 2, locators: 2, ops };
         let rep = run_one(&case, &format!("c18x-{:?}", std::thread::current().id()).replace(['(', ')'], ""));
@@ -552,7 +589,7 @@ pub fn run(ctx: &Ctx) -> i32 {
     let mut ev = Evidence::default();
     ev.level = "exploration".into();
     ev.rule = format!(
-        "exhaustive small scope: every sequence of {len} operations out of {} (register / abandon / accepted / pending / invalid / pending->accepted / pending->invalid / misbehaved over 2 towers x 2 locators) after two registrations ({exhaustive_n} sequences; operations whose caller-side precondition does not hold are skipped and counted); random: sequences of up to 24 operations over 2-3 towers and 2-3 locators incl. non-extending renewals and subscription errors. After EVERY operation: WTClient.towers == DBM::load_towers == load_tower_record == reference model; a freshly re-opened client reproduces it (pending => temporary unreachable + handed to the retry manager, proof => misbehaving); after abandon no row of any table mentions the tower and no other tower's row changed; every pending/invalid link has its body. Non-trivial = at least two operations applied including an abandon, a pending transition or a misbehaviour; distinct = distinct operation lists.",
+        "exhaustive small scope: every sequence of {len} operations out of {} plus every sequence of {len}-1 operations followed by abandon t and the late reply (accepted / rejected) of a request in flight for (t, l) (register / abandon / accepted / pending / invalid / pending->accepted / pending->invalid / misbehaved / late reply of an abandoned tower over 2 towers x 2 locators) after two registrations ({exhaustive_n} sequences; operations whose caller-side precondition does not hold are skipped and counted); random: sequences of up to 24 operations over 2-3 towers and 2-3 locators incl. non-extending renewals and subscription errors. After EVERY operation: WTClient.towers == DBM::load_towers == load_tower_record == reference model; a freshly re-opened client reproduces it (pending => temporary unreachable + handed to the retry manager, proof => misbehaving); after abandon no row of any table mentions the tower and no other tower's row changed; every pending/invalid link has its body. Non-trivial = at least two operations applied including an abandon, a pending transition or a misbehaviour; distinct = distinct operation lists.",
         alphabet.len()
     );
     ev.extra.insert("exhaustive_small_scope_sequences".into(), json!(exhaustive_n));
